@@ -52,6 +52,15 @@ def step (s : St) (toks : List String) : St × String :=
     match n.toNat? with
     | some n => ok { links := mkLinks n, trk := Tracker.empty, queues := List.replicate n [] }
     | none => bad
+  | ["new", n, b] =>
+    -- conn ids `b + i + 1` (production ids are random u64s, far above 2^32)
+    match n.toNat?, b.toNat? with
+    | some n, some b =>
+      if b ≤ 18446744073709551615 - 1000 then
+        ok { links := (mkLinks n).map fun c => { c with connId := c.connId + b }, trk := Tracker.empty,
+             queues := List.replicate n [] }
+      else bad
+    | _, _ => bad
   | "setc" :: i :: rest =>
     match i.toNat? with
     | some i =>
